@@ -86,4 +86,12 @@ Neigh(offs, k, n, m, i, j) ==
     IF k > Len(offs) THEN <<>>
     ELSE LET x == i + offs[k][1] y == j + offs[k][2]
          IN (IF x >= 0 /\ x < n /\ y >= 0 /\ y < m THEN <<<<x, y>>>> ELSE <<>>) \o Neigh(offs, k + 1, n, m, i, j)
+
+\* the same far from the origin: grid and cell given relative to a base B >= 2 (row base and column base), so that
+\* only the upper bounds can cut a neighbour off; result as offsets from the base
+RECURSIVE NeighRel(_, _, _, _, _, _)
+NeighRel(offs, k, nr, mr, ir, jr) ==
+    IF k > Len(offs) THEN <<>>
+    ELSE LET x == ir + offs[k][1] y == jr + offs[k][2]
+         IN (IF x < nr /\ y < mr THEN <<<<x, y>>>> ELSE <<>>) \o NeighRel(offs, k + 1, nr, mr, ir, jr)
 =============================================================================
